@@ -832,9 +832,15 @@ func c20Util(c *Ctx) {
 					}
 				} else if !isParam(p.Rets[0], 2) {
 					ok = false
+				} else {
+					for _, a := range p.Acc {
+						if a.Kind == "tassert" {
+							ok = false // the cast is evaluated although cond is false: it panics for a value that is not a T
+						}
+					}
 				}
 			}
-			row(fi, "table", ok, "cond -> value.(T), else ifFalse", "rows differ from cond -> value.(T), else ifFalse")
+			row(fi, "table", ok, "cond -> value.(T), else ifFalse (no cast on that path)", "rows differ from cond -> value.(T), else ifFalse with the cast evaluated only when cond holds")
 		}
 	}
 	// Ref: fresh cell holding the argument
